@@ -2,6 +2,8 @@ import ParryModel.C06.Lemmas
 import ParryModel.C06.Theorems2
 import ParryModel.C06.Theorems3
 import ParryModel.C06.Theorems4
+import ParryModel.C06.Theorems5
+import ParryModel.C06.Theorems6
 import Mathlib.Analysis.Real.Sqrt
 /-!
 # C06 property theorems: closed-form shape casts report the first time of impact.
